@@ -155,9 +155,68 @@ theorem entry_crc_damage_detected (crc : Crc) (lookup : Lookup) (s : Series)
   simp at this
   exact hxy this
 
-/-- `CrcDetects1` is satisfiable together with the layout (a checksum that sums the bytes mod 2^32
-    detects single-byte changes); CRC32-Castagnoli itself is an assumption (DESIGN §6). -/
-def sumCrc : Crc := fun bs => UInt32.ofNat (bs.foldl (fun a b => a + b.toNat) 0)
+/-- The fault-sweep statement for a series entry: position `i` ranges over the body and the stored
+    checksum (everything after the length prefix); any other byte value there makes `Reader.Series`
+    fail with a checksum error. -/
+theorem entry_damage_any_position (crc : Crc) (hcrc : CrcDetects1 crc) (lookup : Lookup) (s : Series)
+    (pre post : Bytes) (hsize : (seriesBody s).length < 34359738368)
+    (i : Nat) (hi : i < (seriesBody s).length + 4) (y : UInt8)
+    (hy : (seriesBody s ++ crcBytes crc (seriesBody s))[i]? ≠ some y) :
+    readSeriesAt crc lookup
+      (pre ++ (putUvarint (seriesBody s).length ++ (seriesBody s ++ crcBytes crc (seriesBody s)).set i y) ++ post)
+      pre.length = .error .checksum := by
+  rw [List.set_append]
+  by_cases hlt : i < (seriesBody s).length
+  · rw [if_pos hlt]
+    obtain ⟨e1, e2⟩ := set_split (seriesBody s) i y hlt
+    rw [List.getElem?_append_left hlt, List.getElem?_eq_getElem hlt] at hy
+    have hxy : (seriesBody s)[i] ≠ y := fun e => hy (by rw [e])
+    rw [e2]
+    have := entry_damage_detected crc hcrc lookup s pre post _ _ _ y hsize e1 hxy
+    simp only [List.append_assoc] at this ⊢
+    exact this
+  · rw [if_neg hlt]
+    have hj : i - (seriesBody s).length < (crcBytes crc (seriesBody s)).length := by
+      rw [crcBytes_length]; omega
+    obtain ⟨e1, e2⟩ := set_split (crcBytes crc (seriesBody s)) (i - (seriesBody s).length) y hj
+    rw [List.getElem?_append_right (by omega), List.getElem?_eq_getElem hj] at hy
+    have hxy : (crcBytes crc (seriesBody s))[i - (seriesBody s).length] ≠ y := fun e => hy (by rw [e])
+    rw [e2]
+    have := entry_crc_damage_detected crc lookup s pre post _ _ _ y hsize e1 hxy
+    simp only [List.append_assoc] at this ⊢
+    exact this
+
+/-- The fault-sweep statement for a chunk record: every position after the length prefix. -/
+theorem chunk_damage_any_position (crc : Crc) (hcrc : CrcDetects1 crc) (enc : UInt8) (data pre post : Bytes)
+    (hlen : data.length < 34359738368) (i : Nat) (hi : i < 1 + data.length + 4) (y : UInt8)
+    (hy : ((enc :: data) ++ crcBytes crc (enc :: data))[i]? ≠ some y) :
+    readChunkAt crc
+      (pre ++ (putUvarint data.length ++ ((enc :: data) ++ crcBytes crc (enc :: data)).set i y) ++ post)
+      pre.length = .error .checksum := by
+  rw [List.set_append]
+  by_cases hlt : i < (enc :: data).length
+  · rw [if_pos hlt]
+    obtain ⟨e1, e2⟩ := set_split (enc :: data) i y hlt
+    rw [List.getElem?_append_left hlt, List.getElem?_eq_getElem hlt] at hy
+    have hxy : (enc :: data)[i] ≠ y := fun e => hy (by rw [e])
+    rw [e2]
+    have := chunk_damage_detected crc hcrc enc data pre post _ _ _ y hlen e1 hxy
+    simp only [List.append_assoc] at this ⊢
+    exact this
+  · rw [if_neg hlt]
+    have hj : i - (enc :: data).length < (crcBytes crc (enc :: data)).length := by
+      rw [crcBytes_length]; simp only [List.length_cons] at hlt ⊢; omega
+    obtain ⟨e1, e2⟩ := set_split (crcBytes crc (enc :: data)) (i - (enc :: data).length) y hj
+    rw [List.getElem?_append_right (by omega), List.getElem?_eq_getElem hj] at hy
+    have hxy : (crcBytes crc (enc :: data))[i - (enc :: data).length] ≠ y := fun e => hy (by rw [e])
+    rw [e2]
+    have := chunk_crc_damage_detected crc enc data pre post _ _ _ y hlen e1 hxy
+    simp only [List.append_assoc] at this ⊢
+    exact this
+
+/-- The hypothesis `CrcDetects1` is satisfiable (byte sum modulo 2^32); that CRC32-Castagnoli
+    satisfies it is the assumption of DESIGN §6. -/
+example : CrcDetects1 sumCrc := sumCrc_detects1
 
 /-! ## Symbol table and TOC -/
 
@@ -201,5 +260,112 @@ theorem toc_damage_detected (crc : Crc) (hcrc : CrcDetects1 crc) (t : Toc) (pre 
   rw [if_pos]
   rw [hsplit]
   exact crcBytes_ne crc (hcrc b1 b2 y x (fun h => hxy h.symm))
+
+/-! ## Postings lists and the postings offset table -/
+
+/-- `Reader.Postings` on one list written by `writePosting`: all series ids, in order. -/
+theorem postings_list_roundtrip (crc : Crc) (ids : List Nat) (pre post : Bytes)
+    (hids : ∀ i ∈ ids, i < 4294967296) (hn : ids.length < 1073741823)
+    (hpre : pre.length < 9223372036854775808) :
+    readPostingsAt crc (pre ++ postingsList crc ids ++ post) pre.length = .ok ids := by
+  unfold readPostingsAt postingsList sect
+  have hl : (postingsContent ids).length < 4294967296 := by
+    simp only [postingsContent, List.length_append, putBE32_length, flatMap_putBE32_length]; omega
+  rw [decbufAt_frame crc pre post (postingsContent ids) _ _ hl rfl (crcBytes_length _ _) hpre]
+  simp only [ne_eq, not_true_eq_false, if_false]
+  unfold postingsContent
+  rw [getBE32_putBE32 (by omega)]
+  simp only
+  rw [if_neg (by rw [flatMap_putBE32_length]; simp)]
+  have := readBE32s_enc ids [] hids
+  rw [List.append_nil] at this
+  rw [this]
+
+/-- `ReadPostingsOffsetTable` on the table `writePostingsOffsetTable` writes: every entry
+    (name, value, offset), in order. -/
+theorem offset_table_roundtrip (crc : Crc) (es : List TableEntry) (pre post : Bytes)
+    (hes : ∀ e ∈ es, EntryWF e) (hn : es.length < 4294967296)
+    (hsize : (offsetTableContent es).length < 4294967296) (hpre : pre.length < 9223372036854775808) :
+    readOffsetTable crc (pre ++ offsetTable crc es ++ post) pre.length = .ok es := by
+  unfold readOffsetTable offsetTable sect
+  rw [decbufAt_frame crc pre post (offsetTableContent es) _ _ hsize rfl (crcBytes_length _ _) hpre]
+  simp only [ne_eq, not_true_eq_false, if_false]
+  unfold offsetTableContent
+  rw [getBE32_putBE32 hn]
+  simp only
+  have := readTableEntries_enc es [] hes
+  rw [List.append_nil] at this
+  exact this
+
+/-! ## The whole index file -/
+
+/-- Inputs of a block as `index.Writer` accepts them. -/
+structure BlockWF (syms : List Bytes) (series : List Series) : Prop where
+  strs : ∀ s ∈ syms, s.length < 9223372036854775808
+  nsyms : syms.length < 4294967296
+  symsize : (symbolsContent syms).length < 4294967296
+  series : ∀ s ∈ series, SeriesWF (lookupIn syms) (strOf syms) s
+
+/-- Whole-file statement, first part: in the file `index.Writer` produces (header, symbol table,
+    16-aligned series entries, postings, postings offset table, TOC), the reader finds the TOC,
+    all symbols, and — at `16·id` for the id the writer assigned — every series with its label
+    strings and chunk metas. -/
+theorem block_roundtrip_sem_partial (crc : Crc) (syms : List Bytes) (series : List Series)
+    (h : BlockWF syms series)
+    (hfile : (writeIndex crc syms series).bytes.length < 9223372036854775808) :
+    readToc crc (writeIndex crc syms series).bytes = .ok (writeIndex crc syms series).toc ∧
+    readSymbols crc (writeIndex crc syms series).bytes (writeIndex crc syms series).toc.symbols = .ok syms ∧
+    (writeIndex crc syms series).ids.length = series.length ∧
+    ∀ (k : Nat) (s : Series) (id : Nat), series[k]? = some s → (writeIndex crc syms series).ids[k]? = some id →
+      readSeriesAt crc (lookupIn syms) (writeIndex crc syms series).bytes (id * 16) = .ok (strsOf (strOf syms) s) := by
+  have hlen := hfile
+  simp only [writeIndex, List.length_append, zeros, List.length_replicate] at hlen
+  refine ⟨?_, ?_, ?_, ?_⟩
+  · simp only [writeIndex]
+    apply toc_roundtrip
+    unfold TocWF U64
+    simp only [encToc, List.length_append, tocContent_length, crcBytes_length] at hlen
+    refine ⟨?_, ?_, ?_, ?_, ?_, ?_⟩ <;> simp only <;> omega
+  · rw [writeIndex_bytes]
+    have := symbol_table_roundtrip crc syms indexHeader
+      ((placeSeries crc (indexHeader.length + (symbolTable crc syms).length) series).1 ++
+        indexMid crc syms series ++ encToc crc (writeIndex crc syms series).toc)
+      h.strs h.nsyms h.symsize (by decide)
+    simp only [List.append_assoc] at this ⊢
+    exact this
+  · simp only [writeIndex]
+    exact placeSeries_ids_length crc series _
+  · intro k s id hs hid
+    have hid' : (placeSeries crc (indexHeader.length + (symbolTable crc syms).length) series).2[k]? = some id := hid
+    obtain ⟨a, b, hab, hpos⟩ := placeSeries_spec crc series _ k s id hs hid'
+    rw [writeIndex_bytes, hab]
+    have hwf := h.series s (List.mem_of_getElem? hs)
+    have := series_entry_roundtrip crc (lookupIn syms) (strOf syms) s
+      (indexHeader ++ symbolTable crc syms ++ a)
+      (b ++ indexMid crc syms series ++ encToc crc (writeIndex crc syms series).toc) hwf
+    have hl : (indexHeader ++ symbolTable crc syms ++ a).length = id * 16 := by
+      simp only [List.length_append]; omega
+    rw [hl] at this
+    simp only [List.append_assoc] at this ⊢
+    exact this
+
+/-- The complete whole-file statement, NOT proved: it adds to `block_roundtrip_sem_partial` that
+    `newReader` succeeds on the written file and that postings, label values and label names read
+    back.  Proved pieces: `postings_list_roundtrip`, `offset_table_roundtrip` (the codecs of both
+    sections at any position).  Missing: the placement lemma for the postings lists (the offsets in
+    the table point at the lists, as `placeSeries_spec` shows for series) and that `find?` in the
+    table hits the right entry (pairs are distinct because the symbol table is strictly sorted).
+    Those reads are tied to the real code by the `block` suite only (`rpost`, `rlv`, `rln`, `openq`). -/
+def block_roundtrip_sem_full : Prop :=
+  ∀ (crc : Crc) (syms : List Bytes) (series : List Series), BlockWF syms series →
+    syms.Pairwise (fun a b => bytesLt a b = true) →
+    (writeIndex crc syms series).bytes.length < 9223372036854775808 →
+    ∃ r, openIndex crc (writeIndex crc syms series).bytes = .ok r ∧ r.syms = syms ∧
+      (∀ (k : Nat) (s : Series) (id : Nat), series[k]? = some s → (writeIndex crc syms series).ids[k]? = some id →
+        r.series crc id = .ok (strsOf (strOf syms) s)) ∧
+      (∀ n v, r.postings crc (strOf syms n) (strOf syms v) =
+        .ok (idsWith ((writeIndex crc syms series).ids.zip series) n v)) ∧
+      (∀ n, n ∈ namesOf series → r.labelValues (strOf syms n) = (valuesOf series n).map (strOf syms)) ∧
+      r.labelNames = (namesOf series).map (strOf syms)
 
 end Prom.C24
